@@ -58,10 +58,11 @@ def build_harness():
     return rc == 0, out, time.time() - t0, HARNESS_BIN
 
 
-def gen_params():
-    """Regenerates coq/Gen/Params.v from the Rust sources. Returns (ok, message)."""
+def gen_params(only=None):
+    """Regenerates coq/Gen/Params*.v from the Rust sources (only the item files named in
+    `only`, default all). Returns (ok, message)."""
     rc, out = sh([sys.executable, os.path.join(VERIF, "tools", "extract_params.py"), REPO,
-                  os.path.join(COQ, "Gen", "Params.v")])
+                  os.path.join(COQ, "Gen", "Params.v")] + list(only or []))
     return rc == 0, out
 
 
@@ -377,7 +378,10 @@ def main_check(mod):
         rp = write_replay(pid, {"kind": "build", "what": "harness build failed", "output": out[-4000:]})
         print("VIOLATION property=%s replay=%s no-failing-input-found" % (pid, rp))
         return 1
-    okp, outp = gen_params()
+    # the item files this property's proofs depend on: its own group's (plus any it names)
+    item_files = list(getattr(mod, "PARAMS", [mod.MODEL_GROUP]))
+    item_files = [f for f in item_files if os.path.exists(os.path.join(VERIF, "tools", "params", f + ".py"))]
+    okp, outp = gen_params(item_files) if item_files else (True, "no item file")
     if not okp:
         problems.append({"kind": "params", "what": "parameter extractor lost an anchor", "detail": outp.strip()})
 
